@@ -17,6 +17,8 @@ def main():
     if a.cmd == 'setup':
         print(env.ensure(verbose=True))
         return 0
+    if os.environ.get('VF_REPO'):
+        sys.path.insert(0, os.environ['VF_REPO'])
     from . import runner
     if a.cmd == 'check':
         try:
